@@ -75,10 +75,10 @@ PROPS["C09"] = {
 PROPS["C19"] = {
     "contracts": ["contracts/C19_cascade.py"],
     "level": "other",
-    "extra": [{"name": "C19/bounded[pipelines<=2 quick,<=3 thorough]", "kind": "bounded", "tiers": ("quick",),
+    "extra": [{"name": "C19/bounded[pipelines<=2]", "kind": "bounded", "tiers": ("quick",),
                "cmd": ["/venv/bin/python", "native/c19_bounded.py", "--stages", "2", "--out", "replays/C19-bounded.json"]},
-              {"name": "C19/bounded[pipelines<=3]", "kind": "bounded", "tiers": ("thorough",), "timeout": 1800,
-               "cmd": ["/venv/bin/python", "native/c19_bounded.py", "--stages", "3", "--out", "replays/C19-bounded.json"]}],
+              {"name": "C19/bounded[pipelines<=4]", "kind": "bounded", "tiers": ("thorough",), "timeout": 1800,
+               "cmd": ["/venv/bin/python", "native/c19_bounded.py", "--stages", "4", "--out", "replays/C19-bounded.json"]}],
     "assumptions": ["checkpoints, processors and error handlers are havocked callbacks (arbitrary value or arbitrary Exception)",
                     "on_stage_complete / on_cascade_complete do not raise",
                     "the product acc*factor is a nonlinear real term compared syntactically (same term on both sides)",
@@ -86,12 +86,13 @@ PROPS["C19"] = {
     "trusted_base": ["ghost call log of havocked callbacks", "element counter ghost for 'COMPLETED' results (updated at append and at status writes)"],
     "explanation": "Deductive part: the gate rule is a call-site precondition on every processor invocation (in run and in _run_single_stage), "
                    "halting is an inductive loop invariant (with halt_on_failure the loop is only re-entered with nothing blocked) plus a per-iteration "
-                   "step clause, amplification and composition are per-iteration step clauses, success/withheld-output are postconditions; all for "
-                   "pipelines of ANY length. Bounded part (labelled bounded): exhaustive enumeration of pipelines up to 2 (quick) / 3 (thorough) stages "
+                   "step clause, amplification and composition are per-iteration step clauses (each stage is fed the running signal, which then becomes its own output), "
+                   "success/withheld-output and 'a successful run releases the running signal the last stage left' are postconditions; all for "
+                   "pipelines of ANY length. Bounded part (labelled bounded): exhaustive enumeration of pipelines up to 2 (quick) / 4 (thorough) stages "
                    "on the real code, which also serves as witness finder for loop-internal obligations.",
     "level_text": "Mixed: unbounded deductive proof of the per-stage rules via loop invariant and call-site preconditions, plus a bounded exhaustive "
                   "stand-in for the whole-run claims (in-order completion, composition of all stages).",
-    "level_note": "Callbacks havocked; counting of COMPLETED results uses a ghost counter maintained by the engine; whole-run composition is only bounded.",
+    "level_note": "Callbacks havocked; counting of COMPLETED results uses a ghost counter maintained by the engine; the whole-run composition is the chain of the proved per-stage clauses (the induction itself is the loop rule, not a separate lemma).",
 }
 
 PROPS["C18"] = {
@@ -99,8 +100,8 @@ PROPS["C18"] = {
     "level": "other",
     "extra": [{"name": "C18/bounded[limits 0..3, adversary families]", "kind": "bounded", "tiers": ("quick",),
                "cmd": ["/venv/bin/python", "native/c18_bounded.py", "3"]},
-              {"name": "C18/bounded[limits 0..5, adversary families]", "kind": "bounded", "tiers": ("thorough",),
-               "cmd": ["/venv/bin/python", "native/c18_bounded.py", "5"]}],
+              {"name": "C18/bounded[limits 0..12, adversary families]", "kind": "bounded", "tiers": ("thorough",),
+               "cmd": ["/venv/bin/python", "native/c18_bounded.py", "12"]}],
     "explanation": "Deductive part (unbounded): call-site preconditions, loop invariants and decreases clauses on the three real loops for all limits and all "
                    "collaborator behaviours. Bounded part (labelled bounded): the statement's adversary families at limits 0..3 (0..5 thorough) on the real "
                    "code, also used as witness finder for loop-internal obligations.",
@@ -165,28 +166,32 @@ PROPS["C14"] = {
     "contracts": ["contracts/C14_coordination.py"],
     "level": "other",
     "extra": [{"name": "C14/bounded[fault injection, lists<=3]", "kind": "bounded", "tiers": ("quick",), "cmd": ["/venv/bin/python", "native/c14_bounded.py", "3"]},
-              {"name": "C14/bounded[fault injection, lists<=4]", "kind": "bounded", "tiers": ("thorough",), "cmd": ["/venv/bin/python", "native/c14_bounded.py", "4"]}],
-    "assumptions": ["the heap is record-based: universally quantified claims over the resource registry ('no registered resource is owned by op') are assembled from a "
-                    "per-resource loop step clause (each tracked lock is no longer owned by the operation after its turn) plus the trusted fact that the loop visits every tracked id; "
-                    "the quantified form itself is only checked by the bounded stand-in",
+              {"name": "C14/bounded[fault injection, lists<=7]", "kind": "bounded", "tiers": ("thorough",), "cmd": ["/venv/bin/python", "native/c14_bounded.py", "7"]}],
+    "assumptions": ["release_all_resources: the registry-wide claims are PROVED for an arbitrary resource id r0 (ghost parameter): a resource the operation tracked is not owned by "
+                    "it afterwards, a resource it did not track keeps owner and hold count (loop over a snapshot of the tracked ids, invariant in terms of the visit position). "
+                    "complete_operation / abort_operation are proved to call release_all_resources exactly once and to remove the operation; that the composition "
+                    "execute_operation -> complete/abort -> release_all carries the registry-wide claim to the top is by reading the three contracts together (the callee is "
+                    "havocked in the callers: a frame 'fields of all locks in a map' is not expressible as a modifies clause of the engine) and by the bounded stand-in; "
+                    "'owned by the operation implies tracked by it' (what makes 'tracked' enough) is acquire_resource's postcondition, not a proved registry invariant",
                     "tracked locks alias the registered locks (ctx.acquired_resources[r] is controller.resources[r]); registry keyed by each lock's own id",
                     "work_fn / validate_fn / checkpoints (controller.advance) are havocked; DependencyGraph updates and waiting-list maintenance are frame-only collaborators here (C15)",
                     "IntegratedCell.execute and the watchdog's timed kills reach the controller only through abort_operation, whose contract is proved"],
-    "trusted_base": ["for-over-keys visits every key", "dataclass construction"],
+    "trusted_base": ["a loop over a snapshot of dict keys visits every key exactly once", "dataclass construction"],
     "explanation": "Deductive part: ResourceLock.try_acquire/release against their state machine with the invariant owner is None iff hold_count == 0; acquire_resource; "
                    "release_all_resources (per tracked lock: not owned by the operation afterwards — the clause that fails with hold_count=2); complete/abort (operation "
                    "removed, release_all called); execute_operation: on EVERY exit path exactly one of complete/abort has been called, no exception escapes, work runs at "
                    "most once and only after all acquisitions, validation only after completed work and on its result, success only if both succeeded. Bounded part: fault "
                    "injection over resource lists (with repeats, foreign holders, preemption) and kill/shutdown on the real system.",
-    "level_text": "Mixed: per-function deductive contracts over all inputs/callback behaviours + bounded fault injection for the registry-wide quantified claim.",
-    "level_note": "Record heap (no quantification over the registry); callbacks havocked; engine and z3 trusted.",
+    "level_text": "Mixed: per-function deductive contracts over all inputs/callback behaviours (registry-wide for release_all_resources, by an arbitrary resource id) + "
+                  "bounded fault injection for the end-to-end composition.",
+    "level_note": "Registry-wide claims by ghost generalisation at release_all_resources; callers use the callee havocked; engine and z3 trusted.",
 }
 
 PROPS["C06"] = {
     "contracts": ["contracts/C06_quorum.py"],
     "level": "other",
     "extra": [{"name": "C06/bounded[electorates<=3]", "kind": "bounded", "tiers": ("quick",), "cmd": ["/venv/bin/python", "native/c06_bounded.py", "3"]},
-              {"name": "C06/bounded[electorates<=5]", "kind": "bounded", "tiers": ("thorough",), "timeout": 3000, "cmd": ["/venv/bin/python", "native/c06_bounded.py", "5"]}],
+              {"name": "C06/bounded[electorates<=6]", "kind": "bounded", "tiers": ("thorough",), "timeout": 3000, "cmd": ["/venv/bin/python", "native/c06_bounded.py", "6"]}],
     "assumptions": ["weights >= 0, 0 <= confidence <= 1; custom thresholds in (0,1) (counts for THRESHOLD); colony non-empty",
                     "ghost sums: sum(expr for v in L [if F]) is one real constant per (list, expr, filters) with: empty list => 0, non-negative terms => non-negative sum "
                     "(sum of a concatenation = sum of the parts); ghost counters per VoteType with the 4-way partition identity P+B+A+D = n (lemma library; not re-proved by z3)",
@@ -231,7 +236,7 @@ PROPS["C17"] = {
     "level": "other",
     "extra": [{"name": "C17/bounded[fingerprints across bounds x histories; Treg table; 40 training windows]", "kind": "bounded", "tiers": ("quick",),
                "cmd": ["/venv/bin/python", "native/c17_bounded.py"]},
-              {"name": "C17/bounded[... 400 training windows]", "kind": "bounded", "tiers": ("thorough",), "timeout": 3000,
+              {"name": "C17/bounded[... 4000 training windows]", "kind": "bounded", "tiers": ("thorough",), "timeout": 3000,
                "cmd": ["/venv/bin/python", "native/c17_bounded.py", "--thorough"]}],
     "assumptions": ["the canary-accuracy minimum is part of the trained baseline (BaselineProfile.check treats it as a violation)",
                     "tolerance-rule conditions are havocked callables; ALERT is outside the IGNORE<MONITOR<ISOLATE<SHUTDOWN scale and excluded (TCell never produces it)",
@@ -312,7 +317,8 @@ PROPS["C15"] = {
                    "(waiter, current owner, resource) and touches no foreign edge; the exactness obligations on successful acquire/release (only the acquirer's own wait may end) "
                    "FAIL on the current tree — the recorded known finding. Bounded part: DFS vs reference on all small digraphs, histories of depth 4 (5 thorough) vs a "
                    "reference wait-for relation, victim checks.",
-    "level_text": "Mostly bounded; the deductive core locates the defect (remove_all_for_agent at the two call sites). Known finding, not repaired.",
+    "level_text": "Graph maintenance (add / remove / remove-all) and the DFS stack discipline proved; the deductive core locates the defect (remove_all_for_agent is the "
+                  "wrong call at the two call sites: known finding, not repaired); search completeness and victim selection bounded.",
     "level_note": "Graph maintenance is proved; search completeness of the DFS and victim selection are bounded only; engine and z3 trusted.",
 }
 
@@ -320,10 +326,13 @@ PROPS["C16"] = {
     "contracts": ["contracts/C16_wiring.py"],
     "level": "other",
     "extra": [{"name": "C16/bounded[port pairs exhaustive; 300 random diagrams]", "kind": "bounded", "tiers": ("quick",), "cmd": ["/venv/bin/python", "native/c16_bounded.py"]},
-              {"name": "C16/bounded[5000 random diagrams]", "kind": "bounded", "tiers": ("thorough",), "timeout": 3000, "cmd": ["/venv/bin/python", "native/c16_bounded.py", "--thorough"]}],
-    "assumptions": ["DiagramExecutor.execute (a 100-line double loop over nested dicts with a ready-set scheduler) is NOT under proof: its clauses (label safety of every delivered value, "
-                    "run once and after all feeders, unschedulable diagrams raise) are checked by the bounded stand-in; the label-safety argument it relies on — "
-                    "_coerce_output labels values exactly as the source port, connect only accepts acceptable flows — IS proved",
+              {"name": "C16/bounded[100000 random diagrams]", "kind": "bounded", "tiers": ("thorough",), "timeout": 3000, "cmd": ["/venv/bin/python", "native/c16_bounded.py", "--thorough"]}],
+    "assumptions": ["DiagramExecutor.execute (a 100-line double loop over nested dicts with a ready-set scheduler) is proved on eight FIXED DIAGRAM SHAPES only (two-module chains in "
+                    "both declaration orders, with and without an external value on the wired port, wired after the executor was built; self-loop; two-cycle; doubly sourced "
+                    "port) for ARBITRARY port labels and handler outputs: on a fixed shape no loop is cut, so run-once / feeder-first / refusal are discharged for all values. "
+                    "For general diagrams its clauses (label safety of every delivered value, run once and after all feeders, unschedulable diagrams raise) are checked by the "
+                    "bounded stand-in (which also watches for non-termination); the label-safety argument it relies on — _coerce_output labels values exactly as the source "
+                    "port, connect only accepts acceptable flows — IS proved for all inputs",
                     "required_capabilities: 'contains every module's capabilities' is proved (arbitrary module index and capability); 'contains nothing else' is bounded",
                     "IntegrityLabel is an IntEnum compared by value"],
     "trusted_base": ["frozen dataclasses", "dict.values() iteration order"],
@@ -331,8 +340,8 @@ PROPS["C16"] = {
                    "connect appends exactly one wire iff both ports exist and the flow is acceptable and leaves the wire list unchanged otherwise, add_module, "
                    "required_capabilities (inclusion), _coerce_output (result labelled exactly as the port; rejected only when mislabelled), _coerce_input, register_module. "
                    "Bounded part: exhaustive port pairs; seeded random diagrams with cycles/fan-in/missing sources/handlers and raw, labelled and mislabelled handler outputs.",
-    "level_text": "Leaf functions proved; the scheduler is a bounded stand-in.",
-    "level_note": "execute not under contract; engine and z3 trusted.",
+    "level_text": "Leaf functions proved for all inputs; the scheduler proved on eight fixed diagram shapes (all labels and values) and bounded for general diagrams.",
+    "level_note": "execute under contract per diagram shape only; engine and z3 trusted.",
 }
 
 PROPS["C01"] = {
@@ -357,8 +366,8 @@ PROPS["C02"] = {
     "contracts": ["contracts/C02_walker.py"],
     "level": "other",
     "extra": [{"name": "C02/tables[operator tables = language reference; call passes all arguments]", "kind": "scan", "cmd": ["python3-vt", "pyvc/scan_c01.py", "C02"]},
-              {"name": "C02/bounded[grammar depth 2 vs restricted CPython eval]", "kind": "bounded", "tiers": ("quick",), "cmd": ["/venv/bin/python", "native/c01_bounded.py", "C02", "2"]},
-              {"name": "C02/bounded[grammar depth 3 vs restricted CPython eval]", "kind": "bounded", "tiers": ("thorough",), "timeout": 3000, "cmd": ["/venv/bin/python", "native/c01_bounded.py", "C02", "3"]}],
+              {"name": "C02/bounded[grammar depth 2 + 1000 random expressions vs restricted CPython eval]", "kind": "bounded", "tiers": ("quick",), "cmd": ["/venv/bin/python", "native/c01_bounded.py", "C02", "2", "1000"]},
+              {"name": "C02/bounded[grammar depth 3 + 200000 random expressions vs restricted CPython eval]", "kind": "bounded", "tiers": ("thorough",), "timeout": 3000, "cmd": ["/venv/bin/python", "native/c01_bounded.py", "C02", "3", "200000"]}],
     "assumptions": ["the walker is proved MODULARLY, one node class per contract variant: assuming the recursive calls return the Python value of the children (the function "
                     "collaborator pyeval = the walker's own contract at its recursive call sites), the value returned for Constant / BinOp (7 operators) / UnaryOp (-, +, not) / "
                     "IfExp / Name / Call / List / Tuple / BoolOp / Compare (6 operators, chains) is the one the language reference assigns in terms of the children's values; "
@@ -383,7 +392,7 @@ PROPS["C12"] = {
     "level": "other",
     "extra": [{"name": "C12/scan-clean[opacity as a taint contract over the pass sequence]", "kind": "scan", "cmd": ["python3-vt", "pyvc/scan_c12.py"]},
               {"name": "C12/bounded[generated templates vs single-pass expansion]", "kind": "bounded", "tiers": ("quick",), "cmd": ["/venv/bin/python", "native/c12_bounded.py"]},
-              {"name": "C12/bounded[5000 templates]", "kind": "bounded", "tiers": ("thorough",), "timeout": 3000, "cmd": ["/venv/bin/python", "native/c12_bounded.py", "--thorough"]}],
+              {"name": "C12/bounded[50000 templates]", "kind": "bounded", "tiers": ("thorough",), "timeout": 3000, "cmd": ["/venv/bin/python", "native/c12_bounded.py", "--thorough"]}],
     "assumptions": ["conformance to the documented grammar depends on the matching semantics of `re` (leftmost, lazy, DOTALL), which SMT regular-language theories do not express: "
                     "that half is a bounded stand-in against an independent single left-to-right expansion",
                     "opacity is an ownership/taint contract over the pass sequence, derived from the source on every run: a scanner (re.sub/re.finditer/str.replace on the running text) may "
